@@ -14,6 +14,7 @@ from typing import (
     cast,
 )
 
+import narwhals.stable.v1 as nw
 import numpy
 import pandas
 import scipy.sparse as spsparse
@@ -70,9 +71,20 @@ def C(
         model_spec: ModelSpec,
     ) -> FactorValues:
         # wrapped numpy arrays are problematic
-        values = pandas.Series(
-            values.__wrapped__ if isinstance(values, FactorValues) else values
-        )
+        if isinstance(values, FactorValues):
+            values = values.__wrapped__
+        if nw.dependencies.is_narwhals_series(values):
+            # Convert natively so that categorical dtypes (declared category
+            # order, unobserved categories, nulls) survive the conversion.
+            native = nw.to_native(values)
+            values = (
+                native
+                if isinstance(native, pandas.Series)
+                else native.to_pandas()
+                if hasattr(native, "to_pandas")
+                else values.to_pandas()
+            )
+        values = pandas.Series(values)
         # Drop by position: index labels need not be unique.
         mask = numpy.ones(len(values), dtype=bool)
         mask[list(drop_rows)] = False
